@@ -2,10 +2,10 @@ package props
 
 import (
 	"fmt"
-	"math"
 	"go/constant"
 	"go/token"
 	"go/types"
+	"math"
 	"sort"
 	"strings"
 
